@@ -2,7 +2,6 @@ package main
 
 import (
 	"fmt"
-	"go/token"
 	"go/types"
 	"sort"
 	"strings"
@@ -207,23 +206,15 @@ func runC12(c *Ctx) []Obligation {
 				continue
 			}
 			for _, b := range f.Blocks {
-				for _, ins := range b.Instrs {
-					ob.Facts++
-					switch x := ins.(type) {
-					case *ssa.BinOp:
-						if isFloat(x.X.Type()) {
-							switch x.Op {
-							case token.ADD, token.SUB, token.MUL, token.QUO:
-								ob.Path = pathTo(reach, f)
-								ob.fail(c.A.Pos(x.Pos()), "%s computes %s on floating-point operands", name, x.Op)
-							}
-						}
-					case *ssa.Convert:
-						if isFloat(x.X.Type()) && !isFloat(x.Type()) {
-							ob.Path = pathTo(reach, f)
-							ob.fail(c.A.Pos(x.Pos()), "%s converts a floating-point value to %s", name, x.Type())
-						}
-					}
+				ob.Facts += len(b.Instrs)
+			}
+			for _, ins := range floatSites(f) {
+				ob.Path = pathTo(reach, f)
+				switch x := ins.(type) {
+				case *ssa.BinOp:
+					ob.fail(c.A.Pos(x.Pos()), "%s computes %s on floating-point operands", name, x.Op)
+				case *ssa.Convert:
+					ob.fail(c.A.Pos(x.Pos()), "%s converts a floating-point value to %s", name, x.Type())
 				}
 			}
 		}
@@ -236,16 +227,10 @@ func runC12(c *Ctx) []Obligation {
 			if f.Blocks == nil || !fnInRepo(f) {
 				continue
 			}
-			for _, b := range f.Blocks {
-				for _, ins := range b.Instrs {
-					if s, ok := ins.(*ssa.Select); ok {
-						ob.Facts++
-						if len(s.States) > 1 {
-							ob.Path = pathTo(reach, f)
-							ob.fail(c.A.Pos(s.Pos()), "%s selects among %d channel operations: when several are ready the choice is random", FnName(f), len(s.States))
-						}
-					}
-				}
+			ob.Facts++
+			for _, s := range racySelects(f) {
+				ob.Path = pathTo(reach, f)
+				ob.fail(c.A.Pos(s.Pos()), "%s selects among %d channel operations: when several are ready the choice is random", FnName(f), len(s.States))
 			}
 		}
 		out = append(out, *ob)
